@@ -258,6 +258,7 @@ class IdentityLinearOperator(ConstantDiagLinearOperator):
         rhs: Float[Tensor, "*batch N P"],
         lhs: Optional[Float[Tensor, "*batch O N"]] = None,
     ) -> Union[Float[Tensor, "*batch N P"], Tuple[Float[Tensor, "*batch O P"], Float[Tensor, "*batch O"]]]:
+        _matmul_broadcast_shape(self.shape, rhs.shape)
         if lhs is None:
             return self._maybe_reshape_rhs(rhs)
         else:
